@@ -17,6 +17,14 @@ CLAIMS = {
             'data-flow wiring of every entry point to lu_solve(lu(A)) with uninterpreted floats (U), Cholesky route / LU '
             'fallback for symmetric inputs (R), and the factorisation obligations (P A = L U per pivot outcome, L L^T = A, '
             'triangular solves) re-run in this check (R).', 'R/U', '§4 C01'),
+    'C02': ('pdf / pmf = textbook formula (same uninterpreted exp, pow, ln, gamma on both sides), zero outside the support, '
+            'mean and variance closed forms for the 13 univariate laws; total mass 1 for the finite discrete laws; '
+            'parameter validation (R). Continuous total mass, moment integrals, normal CDF and the multivariate normal are '
+            'not decided.', 'R', '§4 C02, §9'),
+    'C03': ('Sub-clauses only: inverse-CDF samplers are measure-preserving images of the uniform draw (Uniform, '
+            'Exponential, Gumbel, Pareto), Bernoulli threshold, degenerate parameters, bulk counts and shapes (R, RNG = '
+            'symbolic stream). The law of the rejection samplers is not decided (not expressible for the solvers).',
+            'R', '§4 C03, §9'),
     'C04': ('Every operator form of Vector/Matrix element-wise arithmetic and every unary map is decided per length '
             'instance with float operations uninterpreted (U): output position i is exactly that operation applied to '
             'those operands, operands unchanged, shape kept; mismatches must panic. Reductions are decided as algebraic '
@@ -32,6 +40,12 @@ CLAIMS = {
             'decided equal to their textbook definition for every real data vector of each instance length, with shift / '
             'scale relations (R); min/max/argmin/argmax first-occurrence semantics on finite data (R, exact for '
             'comparison-only code).', 'R', '§4 C08'),
+    'C09': ('Sub-clauses only: erf odd (U), |erf| <= 1 (R), digamma recurrence (R). The accuracy figures of the property are '
+            'NOT decided: no semantics for the true transcendental functions is available to the solvers in this image.',
+            'U/R', '§4 C09, §9'),
+    'C10': ('SGD (plain, momentum, Nesterov) one step on 1-D / 2-D quadratic families equals the published rule with the '
+            'analytic gradient; the reverse-mode tape gradient equals the analytic gradient (R). Adam, multi-step and '
+            'Levenberg-Marquardt instances are in the thorough tier and currently undecided.', 'R', '§4 C10, §9'),
     'C11': ('Cholesky: lower-triangular, positive diagonal, L L^T = A for SPD input (orders 1-3), non-PD input rejected; '
             'LU: permutation, unit-lower |l|<=1, P A = L U per pivot outcome (orders 1-2, 3 thorough), slice and Matrix forms '
             'identical; det = determinant polynomial; ipiv_parity = inversion parity for every permutation of length <= 5 '
@@ -39,6 +53,10 @@ CLAIMS = {
     'C12': ('Every shape pair up to 3x3 (4x4 thorough) x four operators: compatible pairs give the NumPy-broadcast result '
             'entry by entry with float operations uninterpreted (U), incompatible pairs must panic; Matrix/Vector forms.',
             'U', '§4 C12'),
+    'C18': ('One inductive step per mutation (setter pair, bulk update) from an arbitrary valid object against a freshly '
+            'constructed twin: density / mass at a symbolic point, mean, variance and - for closed-form samplers - the draw '
+            'from the same recorded RNG stream; valid targets accepted across disjoint intervals; invalid values rejected '
+            'in setters and updates (R).', 'R', '§4 C18, §9'),
     'C19': ('bootstrap: count/length of resamples, every element is data[drawn index], RNG asked for an index in range, '
             'every index reachable; jackknife: exactly the leave-one-out vectors in order; shuffle / shuffle_two on '
             'length 1 (longer inputs: thorough tier, currently undecided by the solver); RNG = symbolic draws via the '
@@ -104,7 +122,9 @@ def main():
     print(f'{len(checks)} checks, {len(na)} not_applicable')
 
 
-NA = {}
+NA = {
+    'C06': 'not decided in this round: GLM fitting runs through Matrix algebra, six families, the ridge penalty and the linear solver; with the compositional treatment C01 needed (monolithic 2x2 solves do not close) a one-step stationarity harness per family was estimated at several hours and was not built; no other technique is substituted',
+}
 
 if __name__ == '__main__':
     main()
